@@ -63,7 +63,7 @@ pub open spec fn same_kind(e: Element, f: Element) -> bool {
 }
 impl Element {
     //@ fn src/ansi/iterator.rs Element::set_range
-    //@| ensures el_range(*final(self)) == (start, end), same_kind(*final(self), *old(self)),
+    //@| ensures el_range(*final(self)) == (start, end), same_kind(*final(self), *old(self)),  // @C08,C09:set_range.changes.the.range.only
 }
 /// representation invariant of the iterator between two calls of `next`
 pub open spec fn it_wf(it: &AnsiElementIterator) -> bool {
@@ -77,7 +77,7 @@ pub open spec fn it_wf(it: &AnsiElementIterator) -> bool {
 impl<'a> AnsiElementIterator<'a> {
     //@ fn src/ansi/iterator.rs AnsiElementIterator::advance_vte
     //@| requires it_wf(old(self)), old(self).element is None, old(self).bytes.left() + old(self).pos < usize::MAX,
-    //@| ensures final(self).pos == old(self).pos + 1, final(self).start == old(self).start, final(self).bytes == old(self).bytes,
+    //@| ensures final(self).pos == old(self).pos + 1, final(self).start == old(self).start, final(self).bytes == old(self).bytes,  // @C08,C09:advance_vte.consumes.one.byte
     //@|         it_wf(final(self)),
     //@|         final(self).text_length >= old(self).text_length,
 }
